@@ -13,16 +13,10 @@ use crate::gen::*;
 use crate::rng::Rng;
 
 fn run(bin: &str, args: &[&str], stdin: &str) -> (bool, String) {
-    let mut child = match Command::new(bin).args(args).stdin(Stdio::piped()).stdout(Stdio::piped()).stderr(Stdio::null()).spawn() {
-        Ok(c) => c,
-        Err(_) => return (false, String::new()),
-    };
-    {
-        let mut si = child.stdin.take().unwrap();
-        let _ = si.write_all(stdin.as_bytes());
-    }
-    let out = child.wait_with_output().unwrap();
-    (out.status.success(), String::from_utf8_lossy(&out.stdout).to_string())
+    let mut cmd = Command::new(bin);
+    cmd.args(args);
+    let (ok, out, _) = crate::progress::run_tool(cmd, Some(stdin));
+    (ok, out)
 }
 
 fn lt_of(s: &str) -> u8 {
@@ -146,6 +140,23 @@ pub fn pipeline(a: &HashMap<String, String>) -> i32 {
             Some(t) => t,
             None => continue,
         };
+        // the third output mode: one line per sentence, surfaces separated by single blanks
+        {
+            let mut ta = targs.clone();
+            ta[3] = "wakati".to_string();
+            let tref: Vec<&str> = ta.iter().map(|s| s.as_str()).collect();
+            let (ok, text) = run(&bin("tokenize"), &tref, &stdin);
+            if !ok {
+                evs.push(json!({"ev": "cli_err", "tool": "tokenize-wakati"}));
+            } else {
+                let wl: Vec<&str> = text.split('\n').collect();
+                for (i, (s, t)) in sents.iter().zip(&before).enumerate() {
+                    let line: Vec<u32> = wl.get(i).map(|l| l.chars().map(|c| c as u32).collect()).unwrap_or_default();
+                    let surfs: Vec<Value> = t.iter().map(|x| x["surf"].clone()).collect();
+                    evs.push(json!({"ev": "cliwakati", "s": s, "line": line, "surfs": surfs, "nlines": wl.len(), "want_lines": sents.len() + 1}));
+                }
+            }
+        }
         // reorder (training lines incl. an empty and a repeated one) -> map -> tokenize
         let mut lines: Vec<Vec<u32>> = sents[..3].to_vec();
         if rng.chance(1, 2) {
